@@ -31,7 +31,7 @@ func statePaths(tier string, rng *rand.Rand) []Path {
 	two := samplePaths(pathsWith(sp, func(p Path) bool { return nSteps(p) == 2 }), tierN(tier, 80, 1000), rng)
 	fl := samplePaths(filterPaths(tier, rng), tierN(tier, 200, 4000), rng)
 	fn := samplePaths(funcPaths(tier, rng), tierN(tier, 60, 800), rng)
-	return dedupPaths(append(append(append(append(one, two...), fl...), fn...), widePaths()...))
+	return dedupPaths(append(append(append(append(append(one, two...), fl...), fn...), widePaths()...), literalPaths()...))
 }
 
 // bigDocs: concrete documents beyond the symbolic size bounds (buffers that
